@@ -71,10 +71,11 @@ def C01(F, rep, tier, cx):
     run_layout(F, rep, write_rules=('L6', 'L8'), roundtrip=True, extra_classes=(FILESTAT,))
     RD.D123(F, rep)
     RF.C1(F, rep, cx.FL)
-    RF.S2S3(F, rep, cx.FL, {'S3'})
+    RF.S2S3(F, rep, cx.FL, {'S3', 'S2'})
     RF.F3p(F, rep, cx.FL)   # container payload is what its method field says (compress <-> uncompress agree)
     RF.P4(F, rep, cx.FL)    # the stream never discards bytes that have not been read
     RF.R5(F, rep, cx.FL)           # ... and never moves the put position over bytes it does not hold
+    RF.B7(F, rep)                  # ... and copies from the container that holds the current position (not a stale one)
     RP.P6(F, rep, cx.R, cx.FL)   # ... and the decoder never rewinds into bytes it let go
     RF.K12(F, rep, cx.R, cx.FL)  # every object handed to write() reaches the file: the workers drain, close() does not cut them short
     RF.A1(F, rep)           # the API passes the queue's objects and its end-of-file state through unchanged
@@ -139,6 +140,7 @@ def C04(F, rep, tier, cx):
     format_table(F, rep, LR, FILESTAT, FORMAT_FILESTATISTICS, 'F2', total=144)
     stat_size(F, rep)
     RF.F3F4(F, rep, cx.FL)
+    RF.F4s(F, rep)
     RF.F3p(F, rep, cx.FL)
     RF.F5F6(F, rep, cx.R)
     RF.G1(F, rep)   # no state shared between File instances (a static work buffer corrupts concurrent sessions)
@@ -249,6 +251,7 @@ def C09(F, rep, tier, cx):
     RP.K2s(F, rep, cx.R, ws)   # skipping an unknown object can put the get position ahead of the put position:
     RP.K2u(F, rep, cx.R, ws)   # the producer's admission test must survive that, or everything behind the object is lost
     RF.R5(F, rep, cx.FL)       # ... and the containers delivered while the get position is ahead must still be stored
+    RF.T1(F, rep, cx.FL)       # after an object the stream continues at its declared end - what follows (fill bytes, the next signature) is scanned, not swallowed
 
 
 def C10(F, rep, tier, cx):
@@ -267,6 +270,7 @@ def C10(F, rep, tier, cx):
     RP.K2u(F, rep, cx.R, ws)              # the producers' admission test must survive a negative fill level
     RP.K6(F, rep, cx.R, cx.FL, ws)        # a worker that stopped on a corrupt object must not leave close() waiting for the other one
     RF.O5(F, rep)                         # no cached pointer into storage that is released concurrently
+    RF.E1(F, rep, cx.FL)                  # a short read is noticed before its bytes are used (otherwise the signature search spins on a dead stream)
 
 
 def C11(F, rep, tier, cx):
@@ -351,6 +355,8 @@ def C17(F, rep, tier, cx):
     RD.D4(F, rep)
     RD.D6(F, rep)
     RF.G1(F, rep)   # the factory's input (the peeked header) is not shared between File instances / threads
+    RD.D7(F, rep)   # the numbers themselves are the format
+    RF.S2S3(F, rep, cx.FL, {'S2'})   # every object whose type the factory knows is built by it: the factory is asked unconditionally, nothing else skips
 
 
 def advisory_unreachable(F):
